@@ -165,6 +165,14 @@ def gen(rng: random.Random, k: int, tier: str) -> dict:
             cur = tgt
             budget -= 0.3 * COST[cur[0]] * (1 + nmodels)
             ops.append(op)
+            # first use of an old model after the switch is inference (not a plain evaluation), then it is evaluated
+            olds = sorted(i for i, v in live.items() if v == "model")
+            if olds and rng.random() < 0.2:
+                oid = rng.choice(olds)
+                ops.append({"op": "infer", "id": oid, "what": rng.choice(["fit", "fit", "fixed"]), "grad": rng.choice([None, None, True, False]),
+                            "stitch": rng.random() < 0.3})
+                ops.append({"op": "eval", "id": oid, "pt": rng.randrange(1 << 30)})
+                budget -= 4.5 * COST[cur[0]] * (3 if cur[0] == "jax" else 1)
         elif kind == "eval":
             oid = rng.choice(sorted(live))
             if live[oid].startswith("sub_"):
@@ -192,6 +200,11 @@ def gen(rng: random.Random, k: int, tier: str) -> dict:
             ops.append(op)
             budget -= {"fit": 3, "fixed": 3, "hypotest": 12, "twice_nll": 1, "teststat": 6, "uncert": 4, "hypotest_q": 12, "toys": 30, "limit": 50}[what] \
                 * COST[cur[0]] * (3 if cur[0] == "jax" else 1)
+            # fit, then look at the model: whatever inference left behind on the object (lazily rebuilt caches, traced
+            # values) must not change how it evaluates afterwards
+            if rng.random() < 0.5:
+                ops.append({"op": "eval", "id": oid, "pt": rng.randrange(1 << 30)})
+                budget -= 1.5 * COST[cur[0]]
         elif kind == "drop":
             oid = rng.choice(sorted(live))
             del live[oid]
@@ -220,6 +233,7 @@ def gen(rng: random.Random, k: int, tier: str) -> dict:
         ops.append({"op": "switch", "backend": "jax", "precision": p2, "optimizer": ops[-2]["optimizer"] if ops[-1]["op"] == "infer" else rng.choice(OPTS),
                     "bform": "str", "oform": "str", "pform": "str"})
         ops.append(dict(inf))
+        ops.append({"op": "eval", "id": oid, "pt": rng.randrange(1 << 30)})
     return {"cfg": cfg, "ops": ops}
 
 
